@@ -96,6 +96,13 @@ CHECKS = {
     "C05": chk([e1("seq", 1)], SEQ_RULE, "Seeded histories; Dataset::validate plus manifest invariants after every commit."),
     "C06": chk([e1("seq", 1)], SEQ_RULE, "Seeded histories; every old version re-read by a fresh party after later steps must equal its snapshot; disk-level monitor that no referenced object changes bytes."),
     "C07": chk([e1("seq", 1)], SEQ_RULE, "Seeded histories with restores; restored version equals the model of the old version; row ids never re-issued."),
+    "C08": chk([e1("maint", 2), e1("maint", 1, race=1)],
+               "one run = a seeded history with simulated wall-clock jumps (hours to 8 days), tags, writers crashed at a chosen storage call (orphan files) and "
+               "cleanup under random policies (older_than 0 h .. 30 d, before_version, retain_n, delete_unverified on/off); the race batch ends with a writer "
+               "and an aggressive cleanup interleaved at every storage call; distinct = distinct operation-kind sequences / decision sequences; non-trivial = >= 3 operations",
+               "Seeded histories; after every cleanup a fresh party lists the versions: only policy-selected, untagged, non-latest versions may be gone (10 s guard band on the "
+               "time boundary) and every retained version still scans to its model state; in the race the writer either fails or publishes a version whose files all exist.",
+               required_probes=["cleanup-removed-versions", "cleanup-deleted-data-file", "orphans-left"]),
     "C09": chk([e1("refs", 1)],
                "one run = a seeded history of reference operations on one table: writes on main and on branches, create_branch from arbitrary (branch, version) with "
                "prefix-related hierarchical names drawn from a small cluster (a, ab, a/b, abc, a/b/c, ...), delete_branch, tag create/update/delete, shallow clones "
@@ -152,7 +159,7 @@ CHECKS = {
 }
 
 # properties whose checks are registered in MANIFEST.json (clean on the unchanged tree)
-REGISTERED = ["C01", "C02", "C03", "C04", "C05", "C06", "C07", "C09", "C10", "C11", "C12", "C13", "C14", "C15", "C16", "C17", "C18", "C19", "C20", "C24", "C30", "C31", "C33", "C37", "C39", "C41"]
+REGISTERED = ["C01", "C02", "C03", "C04", "C05", "C06", "C07", "C08", "C09", "C10", "C11", "C12", "C13", "C14", "C15", "C16", "C17", "C18", "C19", "C20", "C24", "C30", "C31", "C33", "C37", "C39", "C41"]
 
 PURE = "pure function of its inputs: no task, timer, storage call, clock, fault or second party for a scheduler or fault injector to decide (DESIGN.md section 6)"
 NOT_APPLICABLE = {
